@@ -21,7 +21,7 @@
 (*   newc, newk  COMMENT ids / all other token ids of the new code            *)
 (*   stmt, kind, field, form, deleting   what is edited and how               *)
 (*   tv          the trivia option value, syntactically decomposed            *)
-(*   elif, soleGen, dependent   grammar-forced situations (named below)       *)
+(*   elifPre, elifPost, soleGen, dependent   grammar-forced situations       *)
 (*                                                                            *)
 (* Three regions of the pre stream (DESIGN 4-C04):                            *)
 (*   Out = outside [cLo, cHi];  W = window [W.lo, W.hi] from the end of the   *)
@@ -83,7 +83,7 @@ BeforeKids(c, S) == IF S = {} THEN c.cHi ELSE SetMin({c.kids[k].lo : k \in S}) -
 (* ElifChange: `elif` <-> `else:` + indented `if` - the If that is the sole   *)
 (* element of an If's orelse changes its header and indentation when the      *)
 (* orelse gains / loses an element: the whole orelse region is the window     *)
-ElifChange(c)     == c.kind = "If" /\ c.field = "orelse" /\ c.elif
+ElifChange(c)     == c.kind = "If" /\ c.field = "orelse" /\ (c.elifPre \/ c.elifPost)
 (* SoleGenexp: `f(x for x in y)` - the call's parentheses double as the       *)
 (* generator's; any other argument forces parentheses of its own              *)
 SoleGenexp(c)     == c.soleGen
@@ -184,11 +184,14 @@ TrailSel(c, w, at, blk) ==
                ELSE {}
   IN lineSel \cup below
 
-(* EmptiedBlock: the last statement of an `else:` / `finally:` block goes -    *)
-(* the header goes with it; its leading trivia is taken at the header and the *)
-(* comments between the header and the statement have no block left to be in *)
+(* EmptiedBlock: the last statement of an `else:` / `finally:` block goes, or  *)
+(* the whole `else:` block of an If is replaced by a single If that is written *)
+(* as `elif` - the header goes with it; the leading trivia is then taken at    *)
+(* the header and the comments between the header and the first statement     *)
+(* have no block left to be in                                                 *)
 EmptiedBlock(c) == /\ c.stmt /\ c.field \in {"orelse", "finalbody"} /\ HasElem(c)
-                   /\ c.ns = 0 /\ c.nt = NumE(c) /\ c.deleting
+                   /\ c.ns = 0 /\ c.nt = NumE(c)
+                   /\ (c.deleting \/ (c.kind = "If" /\ c.field = "orelse" /\ c.elifPost /\ ~c.elifPre))
 Header(c, w) == IF ~EmptiedBlock(c) THEN 0
                 ELSE LET hs == {i \in w.lo..(ELo(c) - 1) : i \in c.own /\ Str(c.T[i]) \in {"else", "finally"}}
                      IN IF hs = {} THEN 0 ELSE SetMin(hs)
@@ -304,7 +307,7 @@ TokenClauses(c) ==
 InsertNeighbourSel(c) ==
   IF HasElem(c) \/ Whole(c) \/ c.stmt \/ c.form # "slice" THEN {}
   ELSE IF c.ns < NumE(c) THEN LeadSel(c, W(c), c.E[c.ns + 1].lo)
-  ELSE LET pk == PrevKids(c) IN
+  ELSE LET pk == {k \in Kids(c) : c.kids[k].hi <= W(c).hi} IN     \* (children of interleaved fields included)
        IF pk = {} THEN {} ELSE TrailSel(c, W(c), SetMax({c.kids[k].hi : k \in pk}), FALSE)
 LostClass(c) ==
   IF ~FactsOk(c) \/ ~WOk(c) THEN ""
